@@ -728,21 +728,27 @@ func (cfg *Config) wordFields(wps []syntax.WordPart) ([][]fieldPart, error) {
 				s = rest
 			}
 			if strings.Contains(s, "\\") {
-				sb := cfg.strBuilder()
+				// A backslash quotes the next character: it is added as a
+				// quoted part, so that it can never be a globbing metacharacter.
+				start := 0
 				for i := 0; i < len(s); i++ {
-					b := s[i]
-					if b == '\\' {
-						if i++; i >= len(s) {
-							sb.WriteByte(b)
-							break
-						}
-						b = s[i]
+					if s[i] != '\\' || i+1 >= len(s) {
+						continue
 					}
-					sb.WriteByte(b)
+					if start < i {
+						curField = append(curField, fieldPart{val: s[start:i]})
+					}
+					i++
+					_, size := utf8.DecodeRuneInString(s[i:])
+					curField = append(curField, fieldPart{quote: quoteSingle, val: s[i : i+size]})
+					i += size - 1
+					start = i + 1
 				}
-				s = sb.String()
+				s = s[start:]
 			}
-			curField = append(curField, fieldPart{val: s})
+			if s != "" || len(curField) == 0 {
+				curField = append(curField, fieldPart{val: s})
+			}
 		case *syntax.SglQuoted:
 			allowEmpty = true
 			fp := fieldPart{quote: quoteSingle, val: wp.Value}
